@@ -277,6 +277,8 @@ def run_one(m, known):
         fo = [o for o in failed if o not in known and G.obligations[o]['kind'] != 'proof-hint']
         if not fo and hints:
             return (m, 'undecided', 'only proof hints fail: %s' % hints[:2])
+        if not fo and G.anchor_skipped:
+            return (m, 'undecided', 'left out: %s' % sorted(G.anchor_skipped.items())[:1])
         return (m, 'killed' if fo else 'survived', ','.join(sorted({t for o in fo for t in G.obligations[o]['tags']})))
     finally:
         shutil.rmtree(wd, ignore_errors=True)
